@@ -16,6 +16,9 @@ def run(ctx):
     behs += sc.run_family(ctx, "keepalive write failure", c, 2000 if big else 150)
     c = sc.consts("ibgp", {"ok"}, {"annAB", "wdA"}, {"type0"}, {"ManualStop", "Notification", "NotifBadSub", "NotifData"}, 7)
     behs += sc.run_family(ctx, "ibgp exits", c, 3000 if big else 250)
+    # another session of the same VRF stays established: the local AS keeps taking part in loop detection whatever this one does
+    c = sc.consts("ebgp2", {"ok"}, {"annA"}, {"badMarker"}, {"ManualStop", "Notification"}, 8)
+    behs += sc.run_family(ctx, "two sessions in one VRF", c, 2000 if big else 150)
     for cfg in ("rr", "rrcid"):
         c = sc.consts(cfg, {"ok"}, {"annAB"}, {"badMarker"}, {"ManualStop", "NotifCode7"}, 7)
         behs += sc.run_family(ctx, "route reflector client (%s) exits" % cfg, c, 2000 if big else 120)
@@ -23,7 +26,7 @@ def run(ctx):
                 "(NOTIFICATION received - plain, with data, with a code or subcode this speaker does not know -, hold timer expiry, keepalive write failure, malformed UPDATE, malformed header, unexpected "
                 "OPEN, manual stop), then re-establish on a new connection; after every event the Loc-RIB must hold exactly the current "
                 "session's routes while attached and nothing otherwise, the local ASN's (and for a route reflector client the cluster id's, defaulted or configured) loop-detection "
-                "contribution must follow, and "
+                "contribution must follow (with a second session of the same VRF established throughout it must stay), and "
                 "the new session starts from empty Adj-RIBs; non-trivial = Established is left with routes learned")
 
     def nt(b):
